@@ -463,8 +463,18 @@ func (f *Facts) decide(ts *Terms, c *T, assume bool, val bool) tri {
 	if v, ok := f.bools[c]; ok {
 		return triOf(v)
 	}
+	// a type assertion succeeds only on a non-nil interface value: typeok(x) ⇒ x ≠ nil, x = nil ⇒ ¬typeok(x)
+	isTypeOK := c.Op == "app" && strings.HasPrefix(c.Aux, "typeok:") && len(c.Args) == 1
+	if isTypeOK {
+		if n, known := f.nils[c.Args[0]]; (known && n) || c.Args[0].IsNilConst() {
+			return triF
+		}
+	}
 	if assume {
 		f.bools[c] = val
+		if isTypeOK && val {
+			f.nils[c.Args[0]] = false
+		}
 		return triOf(val)
 	}
 	return triU
